@@ -154,6 +154,48 @@ def observe(keys):
     return out, t1
 
 
+def simple_bytes(k):
+    """a bytes key whose repr is the plain text between one kind of quotes: printable ASCII, no backslash, not both quote characters
+    (outside: finding F57 -- the repr carries escapes the path reader does not undo -- and the both-quotes case F8a)"""
+    r = repr(k)
+    return '\\' not in r and not (b"'" in k and b'"' in k)
+
+
+def bytes_keys(ctx):
+    """bytes dictionary keys (outside the key universe of the Lean model: implementation only): the path DeepDiff reports is read back by
+    parse_path and extract, stringify_path inverts parse_path, DeepSearch reports the same string, the tree view's list form is the key sequence"""
+    pool = [b'x', b'', b'ab c', b"it's", b'say "x"', b'0', b'root', b'a.b', b'a[0]', b'__p', b'\xff\x00', b'a"b\'c', b'C:\\tmp', b'\n', 'é'.encode()]
+    others = ['a', "it's", 1, 1.5, None, True, Idx(0), Idx(2), '']
+    n = 300 if ctx.thorough() else 60
+    for _ in range(n):
+        ks = [ctx.rng.choice(pool) if ctx.rng.random() < 0.6 else ctx.rng.choice(others) for _ in range(ctx.rng.randint(1, 3))]
+        if not any(isinstance(k, bytes) for k in ks):
+            ks.insert(ctx.rng.randrange(len(ks) + 1), ctx.rng.choice(pool))
+        plain = [int(k) if isinstance(k, Idx) else k for k in ks]
+        ctx.evaluations += 1
+        case = {'keys': [repr(k) for k in ks]}
+        try:
+            o, _t1 = observe(ks)
+        except Exception as e:
+            ctx.violate(case, 'DeepDiff / extract / parse_path raised %s: %s on a value with bytes keys' % (type(e).__name__, str(e)[:80])); continue
+        ctx.nontriv(('bytes keys', repr(ks)))
+        if o.get('tree_list') is not None and not (isinstance(o['tree_list'], list) and same_keys(o['tree_list'], plain)):
+            ctx.violate(case, 'tree list-form path = %r, expected %r' % (o['tree_list'], plain))
+        if not all(simple_bytes(k) for k in ks if isinstance(k, bytes)) or not all(safe_key(k) for k in ks if not isinstance(k, bytes)):
+            ctx.count('bytes_keys:outside_string_domain'); continue
+        ctx.count('bytes_keys')
+        if o.get('path') is None:
+            ctx.violate(case, 'no path reported (%s paths)' % o.get('npaths')); continue
+        if not o['extract_ok']:
+            ctx.violate(case, 'extract(t1, %r) gave %s, not the object at that location' % (o['path'], o['extract']))
+        if not (isinstance(o['parsed'], list) and same_keys(o['parsed'], plain)):
+            ctx.violate(case, 'parse_path(%r) = %r, expected %r' % (o['path'], o['parsed'], plain))
+        if o.get('stringified') != o['path']:
+            ctx.violate(case, 'stringify_path(parse_path(%r)) = %r' % (o['path'], o.get('stringified')))
+        if isinstance(o.get('search_paths'), list) and o['search_paths'] != [o['path']]:
+            ctx.violate(case, 'DeepSearch reports %r for the location DeepDiff reports as %r' % (o['search_paths'], o['path']))
+
+
 def gen_sequences(ctx):
     seqs = []
     L = 3 if ctx.thorough() else 2
@@ -324,6 +366,7 @@ def run(ctx, impl_only=False):
                 if isinstance(o.get('stringified'), str) and not o['stringified'].startswith('raised') and a != enc_str(o['stringified']):
                     ctx.diverge(case, enc_str(o['stringified']), a, op='PSTRINGIFY')
         check_le(ctx)
+    bytes_keys(ctx)
     # ---- known findings (boundary witnesses outside SafeKey)
     kf = known(ctx)
     wit = {
@@ -331,6 +374,9 @@ def run(ctx, impl_only=False):
         'F8b': lambda: (lambda o: o.get('path') is not None and o['extract_ok'] and same_keys(o['parsed'], ['a' + ESC]))(observe(['a' + ESC])[0]),
         'F8c': lambda: observe([float('inf')])[0].get('path') is not None,
         'F8d': lambda: stringify_path([1, 2, 'age']) == "root[1][2]['age']",
+        'F57': lambda: (lambda o: isinstance(o['parsed'], list) and same_keys(o['parsed'], [b'\xff\x00']) and o['extract_ok'])(observe([b'\xff\x00'])[0]),
+        'F55': lambda: (lambda o: o.get('path') == "root[b'x']['a']" and o['extract_ok'] and same_keys(o['parsed'], [b'x', 'a']))(observe([b'x', 'a'])[0]),      # repaired
+        'F56': lambda: observe([b'x', 'a'])[0].get('search_paths') == ["root[b'x']['a']"],                                                                    # repaired
     }
     for fid, f in kf.items():
         if fid in wit:
